@@ -11,7 +11,7 @@
    common representation are representable (otherwise the C++ has signed overflow = UB).
    All statements hold for ALL periods and ALL counts in that domain. *)
 From Tetl Require Import Lib.Base C12.Model C12.Spec C12.ProofsArith C12.ProofsCast C12.ProofsCommon
-  C12.ProofsRound C12.ProofsSpec.
+  C12.ProofsRound C12.ProofsSpec C12.ProofsScalar.
 Local Open Scope Z_scope.
 
 (** * ratio, gcd, lcm *)
@@ -154,6 +154,38 @@ Proof.
   - apply ge_m_spec; assumption.
 Qed.
 Print Assumptions C12_compare.
+
+(** * duration * rep, rep * duration (same function), duration / rep, duration % rep: computed in the
+      common representation max(w, ws) of the duration's and the scalar's type, period unchanged *)
+Theorem C12_scalar_ops : forall w n d ws c s,
+  rep_ok w = true -> rep_ok ws = true -> period_ok n d = true -> fits w c = true ->
+  (fits (Z.max w ws) (c * s) = true -> smul_m (Dur w n d) ws c s = Val (c * s))
+  /\ (s <> 0 -> fits (Z.max w ws) (Z.quot c s) = true ->
+      sdiv_m (Dur w n d) ws c s = Val (Z.quot c s) /\ smod_m (Dur w n d) ws c s = Val (Z.rem c s)).
+Proof.
+  intros w n d ws c s Hw Hws Hp Hc. rewrite fits_in_rep in Hc. split.
+  - apply smul_m_spec; assumption.
+  - apply sdiv_m_spec; assumption.
+Qed.
+Print Assumptions C12_scalar_ops.
+
+(** * time_point + duration, duration + time_point, time_point - duration, time_point - time_point *)
+Theorem C12_time_point_arith : forall w1 n1 d1 w2 n2 d2,
+  rep_ok w1 = true -> rep_ok w2 = true -> period_ok n1 d1 = true -> period_ok n2 d2 = true ->
+  forall c1 c2,
+  let a := Dur w1 n1 d1 in let b := Dur w2 n2 d2 in
+  (plus_ok w1 n1 d1 w2 n2 d2 c1 c2 = true ->
+     tp_plus_m a b c1 c2 = Val (plus_spec n1 d1 n2 d2 c1 c2)
+     /\ tp_plus_r_m b a c2 c1 = Val (plus_spec n1 d1 n2 d2 c1 c2))
+  /\ (minus_ok w1 n1 d1 w2 n2 d2 c1 c2 = true ->
+     tp_minus_m a b c1 c2 = Val (minus_spec n1 d1 n2 d2 c1 c2)
+     /\ tp_diff_m a b c1 c2 = Val (minus_spec n1 d1 n2 d2 c1 c2)).
+Proof.
+  intros w1 n1 d1 w2 n2 d2 Hw1 Hw2 Hp1 Hp2 c1 c2. cbv zeta.
+  destruct (tp_ops_are_duration_ops (Dur w1 n1 d1) (Dur w2 n2 d2) c1 c2) as (E1 & E2 & E3 & E4).
+  rewrite E1, E2, E3, E4. split; intros H; split; first [apply plus_m_spec|apply minus_m_spec]; assumption.
+Qed.
+Print Assumptions C12_time_point_arith.
 
 (** * the specification functions are the operations the standard words relationally
       (t ticks of n2/d2 versus c ticks of n1/d1  <=>  t * (d1*n2) versus c*n1*d2) *)
